@@ -1085,4 +1085,68 @@ example : (⟨1000, 10, [0, 2, 2, 0, 2, 2, 0, 0, 2, 2, 0, 2]⟩ : Wave).scanTime
     (by decide)).1
   rw [scan_ts_placement _ 2 2 true _ h]; decide
 
+/-! ## Ranges with dead time included contain exactly their line / frame -/
+
+
+/-- **Ranges with dead time included contain exactly their line** (every line that is followed by
+    another one, constant line period): the used samples `t` with `t0(l) ≤ t < t1(l) = t0(l+1)` are exactly
+    the samples of line `l` — all `P` pixels, none of line `l+1`; ranges are non-empty.  (The last range
+    ends one period after its start; that it contains the last line's samples is checked by the oracle
+    only.) -/
+theorem incl_range_exact_inner (w : Wave) (hdt : 0 < w.dt) (k : Nat)
+    (hk : w.pixelSize = some k) (P : Nat) (hP : 0 < P)
+    (ri : List (Int × Int)) (hri : w.lineRangesIncl P = some (some ri)) (l : Nat) (hl : l + 1 < ri.length)
+    (hper : w.usedTs.getD ((l + 1) * P * k) 0 - w.usedTs.getD (l * P * k) 0
+      = w.usedTs.getD (1 * P * k) 0 - w.usedTs.getD (0 * P * k) 0) :
+    ri[l].1 < ri[l].2 ∧
+    w.usedTs.filter (fun t => decide (ri[l].1 ≤ t) && decide (t < ri[l].2))
+      = blockSamples w.usedTs k P l := by
+  have hd := dead_time_contiguous w hdt k hk P hP ri hri
+  have hk0 := pixelSize_pos w k hk
+  have hsep : Sep 1 id w.usedTs := (usedTs_sep w hdt).mono (by omega)
+  have hlt' : (l + 1) * P < w.usedTs.length / k :=
+    (lt_numBlocks_iff _ _ _ hP).mp (by rw [← hd.1]; exact hl)
+  have hm' := mul_succ_le_of_lt_div _ _ _ hk0 hlt'
+  have hP1 : (l + 1) * P = l * P + P := by rw [Nat.add_mul]; omega
+  have hlt : l * P < w.usedTs.length / k := by omega
+  have hpos : 0 < P * k := Nat.mul_pos hP hk0
+  have hidx : (l + 1) * P * k = l * P * k + P * k := by rw [hP1, Nat.add_mul]
+  have h1 := hd.2.1 l (by omega)
+  have h2 := hd.2.2 l hl hper
+  have h3 := hd.2.1 (l + 1) hl
+  rw [h2, h3, h1, getD_eq _ _ (by omega), getD_eq _ _ (by omega)]
+  constructor
+  · have := hsep.getElem_lt (i := l * P * k) (j := (l + 1) * P * k) (by omega) (by omega)
+    simp only [id] at this; omega
+  · rw [blockSamples_eq _ _ _ _ hk0 hP hlt, Nat.min_eq_left (by omega)]
+    have e : (l + 1) * P * k = ((l + 1) * P * k - 1) + 1 := by omega
+    have hfw := filter_window_next w.usedTs hsep (l * P * k) ((l + 1) * P * k - 1) (by omega) (by omega)
+    rw [← hfw]
+    apply List.filter_congr
+    intro t _
+    congr 3
+    exact getElem_congr_idx e  
+example :
+    let w : Wave := ⟨1000, 10, [0, 0, 1, 2, 1, 2, 1, 2, 0, 0, 0, 1, 2, 1]⟩
+    w.pixelSize = some 2 ∧ w.lineRangesIncl 3 = some (some [(1020, 1110), (1110, 1200)]) ∧
+    w.usedTs.getD ((0 + 1) * 3 * 2) 0 - w.usedTs.getD (0 * 3 * 2) 0
+      = w.usedTs.getD (1 * 3 * 2) 0 - w.usedTs.getD (0 * 3 * 2) 0 ∧
+    w.usedTs.filter (fun t => decide (1020 ≤ t) && decide (t < 1110)) = blockSamples w.usedTs 2 3 0 := by
+  decide
+
+/-- The same for scan frames (more than one reconstructed frame, constant frame period): the range of a
+    frame that is followed by another one contains exactly the used samples of its `L·P` pixels. -/
+theorem frame_incl_range_exact_inner (w : Wave) (hdt : 0 < w.dt) (k : Nat)
+    (hk : w.pixelSize = some k) (P L : Nat) (hP : 0 < P) (hL : 0 < L) (δ : Int)
+    (hmulti : numBlocks (w.usedTs.length / k) (L * P) ≠ 1)
+    (ri : List (Int × Int)) (hri : w.frameRanges P L true δ = some (some ri)) (f : Nat)
+    (hf : f + 1 < ri.length)
+    (hper : w.usedTs.getD ((f + 1) * (L * P) * k) 0 - w.usedTs.getD (f * (L * P) * k) 0
+      = w.usedTs.getD (1 * (L * P) * k) 0 - w.usedTs.getD (0 * (L * P) * k) 0) :
+    ri[f].1 < ri[f].2 ∧
+    w.usedTs.filter (fun t => decide (ri[f].1 ≤ t) && decide (t < ri[f].2))
+      = blockSamples w.usedTs k (L * P) f := by
+  rw [frameRanges_incl_multi w k hdt hk P L δ hmulti] at hri
+  exact incl_range_exact_inner w hdt k hk (L * P) (Nat.mul_pos hL hP) ri hri f hf hper
+
 end Verif.C03
